@@ -256,3 +256,41 @@ for cls, pre, post in (("Data", "", ""), ("Declaration", "<!", ">"), ("Comment",
         returns="str",
         properties=["C16"],
     )
+
+
+# ---- reset_children: replace the child list, claiming the parentless items (used by strip) -------------------------------
+contract(
+    f"{M}:Element.deepcopy",
+    requires=["WF()"],
+    ensures=["WF()", "fresh(result)", "result._parent is None", "result.name == self.name"],
+    returns="Element", modifies=["fresh"], trusted=True,
+)
+assumed("Element.deepcopy", "returns a new parentless copy of the sub-tree and leaves existing elements alone (recursive; bounded check only)", "parse_html")
+contract(
+    f"{M}:Element.reset_children",
+    requires=["WF()", "forall(0, len(children), lambda i: allocated(children[i]))"],
+    ensures=[
+        "WF()",
+        # without copying, the new child list IS the given list, and every item now belongs to this element
+        "implies(not deepcopy, self._children == children)",
+        "len(self._children) == len(children)",
+        "forall(0, len(self._children), lambda k: self._children[k]._parent == self)",
+        # no other element's child list changes
+        "forall_obj('Element', lambda e: implies(e != self and old(allocated(e)), e._children == old(e._children)))",
+    ],
+    # an item that already belongs to another element is refused (nothing is taken away from another tree)
+    raises={"AssertionError": []},
+    modifies=["self._children", "Element._parent", "fresh"],
+    types={"new_children": "list[Element]", "children": "list[Element]"},
+    loops={
+        "for (i, item) in enumerate(children)": dict(invariant=[
+            "WF()",
+            "len(new_children) == _i_i",
+            "forall(0, _i_i, lambda k: new_children[k]._parent == self and allocated(new_children[k]))",
+            "implies(not deepcopy, new_children == children[:_i_i])",
+            "self._children == old(self._children)",
+            "forall_obj('Element', lambda e: implies(old(allocated(e)), e._children == old(e._children)))",
+        ]),
+    },
+    properties=["C16"],
+)
